@@ -81,6 +81,16 @@ CHECKS = {
         design_ref='DESIGN.md 5 / C03',
         technique='Coq proof about the check_all model + regenerated set-iteration table (vm_compute) + CLI schedule/seed/history exploration',
         note=NOTE_COMMON + ' The set-iteration detector is syntactic (trusted, not a type checker). D6 fixed by commit a257859.'),
+    'C18': dict(
+        category='proof',
+        text='Coq theorems about the model of gettext.fix_date_format / parse_date / Checker.check_dates, for every string, every whitespace predicate and zone table: '
+             'normalisation is total (Ok / boilerplate / invalid; the len-21 assert cannot fire), an Ok result is canonical and denotes an existing instant, keeps the date, hour, minute '
+             'and the numeric offset written (or the unique offset of the abbreviation, or the hint), is a fixed point; the four-way verdict (boilerplate / invalid-date / date-from-future / '
+             'ancient-date / nothing) is the reference verdict via a strictly monotone proleptic-Gregorian minutes-since-epoch; the regenerated zone table is well-formed (vm_compute). '
+             'Tied to the code by regex-level, strptime-level and in-process check_dates (pinned clock) correspondence plus a model-free oracle.',
+        design_ref='DESIGN.md 5 / C18; notes/C18.md',
+        technique='Coq proof (list induction, lia/div-mod, vm_compute over regenerated tables) + extracted-model correspondence + model-free oracle',
+        note=NOTE_COMMON + ' Hints other than None/[+-]hhmm are outside the theorem (the tool passes only None or -0000); regex/strptime fidelity by correspondence only.'),
 }
 
 NA_REASON = 'check not built yet (work in progress; see DESIGN.md section 8 for build order)'
